@@ -1640,5 +1640,31 @@ def fnSort : Fn (List (Nat × Val)) :=
 /-- an injective digest -/
 def hId : Bs → Bs := fun s => s
 
+/-- Dict arguments whose KEYS are only partially ordered (`(1, frozenset)` tuples: `<` on frozensets is set
+inclusion): value 0 = `{(1, {1,2}): 'a', (1, {2,3}): 'b', (1, {3}): 'c'}`, value 1 = the SAME dict built in
+the reverse insertion order (its frozensets listed in another iteration order as well), value 2 = a
+different dict (two values swapped). -/
+def envPO : Env where
+  val := fun i =>
+    if i = 0 then .dict [(.tuple [.int 1, .frozenset [.int 1, .int 2]], .str [97]),
+        (.tuple [.int 1, .frozenset [.int 2, .int 3]], .str [98]), (.tuple [.int 1, .frozenset [.int 3]], .str [99])]
+    else if i = 1 then .dict [(.tuple [.int 1, .frozenset [.int 3]], .str [99]),
+        (.tuple [.int 1, .frozenset [.int 3, .int 2]], .str [98]), (.tuple [.int 1, .frozenset [.int 2, .int 1]], .str [97])]
+    else if i = 2 then .dict [(.tuple [.int 1, .frozenset [.int 1, .int 2]], .str [98]),
+        (.tuple [.int 1, .frozenset [.int 2, .int 3]], .str [97]), (.tuple [.int 1, .frozenset [.int 3]], .str [99])]
+    else .int i
+  name := fun n => [97 + n]
+
+/-- one parameter, returns its bound arguments, leaves them alone -/
+def fnOne : Fn (List (Nat × Val)) := ⟨0, .func [⟨0, .posKw, none⟩], [], fun b => b, fun c => c⟩
+
+/-- `allPairs` as `List.Pairwise`. -/
+theorem allPairs_pairwise {α : Type} (p : α → α → Bool) :
+    ∀ l : List α, allPairs p l = true → l.Pairwise (fun a b => p a b = true)
+  | [], _ => .nil
+  | x :: xs, h => by
+    simp only [allPairs, Bool.and_eq_true, List.all_eq_true] at h
+    exact .cons h.1 (allPairs_pairwise p xs h.2)
+
 
 end JoblibModel.MemoryCache
